@@ -80,6 +80,21 @@ def gen_trees(ctx):
     nrand = 1500 if quick else 60000
     for _ in range(nrand):
         out.append(("rand8", G.random_tree(r, r.randint(1, 8), rich=True)))
+    # long chains: n operands joined by ONE operator (or by operators of one level), written without parentheses --
+    # the grouping must not depend on the length of the chain (a parser that rebalances or special-cases long chains)
+    lens = [3, 5, 8, 12, 15, 16, 17, 24, 31, 32, 33, 48, 64, 100] if quick else list(range(3, 70)) + [100, 128, 129, 200, 400]
+    for b in G.BINOPS:
+        for n in lens:
+            t = G.random_tree(r, 0)
+            for _ in range(n - 1):
+                t = ("bin", b, t, G.random_tree(r, 0))
+            out.append(("chain", t))
+            if n in (16, 17, 33, 64):
+                # the chain as an operand of other operators, and with one foreign operator inside
+                other = r.choice(G.BINOPS)
+                out.append(("chain", ("bin", other, G.random_tree(r, 0), t)))
+                out.append(("chain", ("bin", other, t, G.random_tree(r, 1))))
+                out.append(("chain", ("un", r.choice(G.UNOPS), t)))
     return out
 
 
